@@ -49,7 +49,7 @@ def _cases(draw, max_atoms):
 
 
 def strategy(tier):
-    return _cases(120 if tier == "quick" else 300)
+    return _cases(80 if tier == "quick" else 300)
 
 
 def radii_for(p, nums):
